@@ -29,6 +29,15 @@ TABLE = {
     "C06": dict(text="the(d).evaluate() twice and an(d) on generated descriptions with all variables selected over small domains; "
                      "TLC computes TheOutcome (value / NoSolutionFound / MultipleSolutionFound) and compares class and value.",
                 technique="TLA+ spec TheOutcome + TLC-generated programs replayed + TLC trace validation", ref="7 C06"),
+    "C20": dict(text="TLC checks, for every history of <=3-4 inserts/clears over 3 keys x 2 values and every lookup, that the "
+                     "nested-dict mechanism with a complete descent equals the reference store (design level); the same histories "
+                     "and random longer ones are replayed on the real IndexedCache with every lookup probed after every operation "
+                     "and judged by TLC against the reference; histories the reference rejects are re-judged against the "
+                     "mechanism with the code's descent to decide known finding F1 vs. violation.",
+                technique="TLA+ reference store vs mechanism model checked by TLC + exported histories replayed on IndexedCache + TLC trace validation",
+                ref="7 C20",
+                note="Trusted: TLC, CacheIndexOps (reference + mechanism), the index replay runner. Known finding F1 "
+                     "(known_findings.json) is suppressed only for histories the deviation model predicts exactly."),
 }
 
 REASON_PENDING = "check not built yet (work in progress; see DESIGN.md section 10)"
